@@ -57,6 +57,13 @@ def run(ctx):
             items.append((ver, t))
             if rng.random() < 0.25:
                 items.append((rng.choice("234"), t))
+    # well-formed strings WITHOUT any / with only some mandatory metrics (e.g. what temporal_vector() prints)
+    for ver in "234":
+        for s in core.optional_only(ver, rng, ctx.n(400, 8000)):
+            items.append((ver, s))
+            if rng.random() < 0.3:
+                items.append((ver, s + "/" + "/".join("%s:%s" % (m, rng.choice(core.VOCAB[ver]["legal"][m]))
+                                                      for m in rng.sample(core.VOCAB[ver]["mandatory"], rng.randrange(1, 4)))))
     # de-duplicate
     items = list(dict.fromkeys(items))
     send = [(v, s) for v, s in items if core.sendable(s)]
